@@ -80,7 +80,7 @@ def lf_obligations(ctx):
 def obligations(ctx):
     sl = shapes.enumerate_shapes(ctx.tier, ctx.seed)
     if ctx.tier != "quick":
-        vlib.JOBS = min(vlib.JOBS, 6)     # two-blob shapes need up to 7 GB each; thousands of them run in the thorough tier
+        vlib.JOBS = min(vlib.JOBS, 4)     # multi-blob shapes need 7-11 GB each (a 62 GB machine was OOM-killed with more in parallel)
     obls = lf_obligations(ctx) + shape_obligations(ctx, PID, PROPDEF, sl)
     avs = [s for s in sl if not s.symstr]
     if ctx.tier == "quick":
